@@ -109,6 +109,8 @@ type asyncCase struct {
 	Layout    bool
 	Shared    bool // Refresh mode: a second (sync) logger shares the appenders; Destroy stops the system
 	TwiceStop bool
+	EmptyRaw  bool // every fifth submission is a raw write with an empty payload (nil or zero-length)
+	SameName  bool // Refresh mode: the first file-owning appender has the same name as the logger (separate sections)
 }
 
 type asyncPlain asyncCase
@@ -125,6 +127,8 @@ func genAsyncCase(t *rapid.T) asyncCase {
 		Layout:    rapid.SampledFrom([]bool{false, true}).Draw(t, "layout"),
 		Shared:    rapid.Bool().Draw(t, "shared"),
 		TwiceStop: rapid.Bool().Draw(t, "twice"),
+		EmptyRaw:  rapid.Bool().Draw(t, "emptyRaw"),
+		SameName:  rapid.Bool().Draw(t, "sameName"),
 	}
 	switch rapid.IntRange(0, 3).Draw(t, "occK") {
 	case 0:
@@ -157,6 +161,7 @@ func runAsyncCase(c asyncCase, dir string) error {
 	var (
 		submitEv  func(id int64)
 		submitRaw func(id int64)
+		rawWrite  func(b []byte)
 		stop      func()
 		stopApps  func(twice bool) any
 	)
@@ -197,6 +202,7 @@ func runAsyncCase(c asyncCase, dir string) error {
 			l.Append(e)
 		}
 		submitRaw = func(id int64) { l.Write([]byte("id=" + strconv.FormatInt(id, 10) + "\n")) }
+		rawWrite = l.Write
 		stop = l.Stop
 		stopApps = func(twice bool) any {
 			return vk.Catch(func() {
@@ -221,26 +227,35 @@ func runAsyncCase(c asyncCase, dir string) error {
 		if c.Layout {
 			m["logger.c05h.layout.type"] = "TextLayout"
 		}
+		names := map[string]string{"file": "f", "rolling": "r", "console": "c"}
+		if c.SameName {
+			// appenders and loggers live in separate sections: an appender may be called like a logger
+			for _, s := range c.Sinks {
+				if s != "console" {
+					names[s] = "c05h"
+					break
+				}
+			}
+		}
 		for i, s := range c.Sinks {
 			k := fmt.Sprintf("logger.c05h.appenderRef[%d].ref", i+1)
+			a := "appender." + names[s] + "."
 			switch s {
 			case "file":
-				m["appender.f.type"], m["appender.f.fileDir"], m["appender.f.fileName"] = "File", dir, "plain.log"
-				m[k] = "f"
+				m[a+"type"], m[a+"fileDir"], m[a+"fileName"] = "File", dir, "plain.log"
 			case "rolling":
-				m["appender.r.type"], m["appender.r.fileDir"], m["appender.r.fileName"], m["appender.r.rotation"], m["appender.r.maxAge"] = "RollingFile", dir, "roll.log", "h", "100"
-				m[k] = "r"
+				m[a+"type"], m[a+"fileDir"], m[a+"fileName"], m[a+"rotation"], m[a+"maxAge"] = "RollingFile", dir, "roll.log", "h", "100"
 			case "console":
-				m["appender.c.type"] = "Console"
-				m[k] = "c"
+				m[a+"type"] = "Console"
 			}
+			m[k] = names[s]
 		}
 		if c.Shared {
 			m["logger.other.type"], m["logger.other.tags"] = "Logger", "_c05_other"
 			m["logger.other.appenderRef[0].ref"] = "rec2"
 			m["appender.rec2.type"] = "Rec"
 			for i, s := range c.Sinks {
-				m[fmt.Sprintf("logger.other.appenderRef[%d].ref", i+1)] = map[string]string{"file": "f", "rolling": "r", "console": "c"}[s]
+				m[fmt.Sprintf("logger.other.appenderRef[%d].ref", i+1)] = names[s]
 			}
 		}
 		if err := log.Refresh(m); err != nil {
@@ -249,6 +264,7 @@ func runAsyncCase(c asyncCase, dir string) error {
 		}
 		submitEv = func(id int64) { log.Info(context.Background(), tagMain, log.Int("id", id)) }
 		submitRaw = func(id int64) { _, _ = handle.Write([]byte("id=" + strconv.FormatInt(id, 10) + "\n")) }
+		rawWrite = func(b []byte) { _, _ = handle.Write(b) }
 		stop = log.Destroy
 		stopApps = func(bool) any { return nil }
 	}
@@ -262,8 +278,19 @@ func runAsyncCase(c asyncCase, dir string) error {
 		total = c.Size
 	}
 	id := int64(0)
+	empties := 0
 	sub := func() {
 		id++
+		if c.EmptyRaw && id%5 == 4 {
+			// an empty raw write is an item like any other: it takes a slot and is handed to the appenders
+			empties++
+			if id%2 == 0 {
+				rawWrite(nil)
+			} else {
+				rawWrite([]byte{})
+			}
+			return
+		}
 		want = append(want, id)
 		if id%3 == 0 {
 			submitRaw(id)
@@ -295,6 +322,7 @@ func runAsyncCase(c asyncCase, dir string) error {
 		rec     []int64
 		files   map[string][]int64
 		console []int64
+		empties int
 	}
 	var at snap
 	result := make(chan any, 1)
@@ -303,6 +331,10 @@ func runAsyncCase(c asyncCase, dir string) error {
 		stop()
 		// immediately on return, no sleep:
 		for _, it := range vk.Rec("rec").Items() {
+			if it.Raw && len(it.Bytes) == 0 {
+				at.empties++
+				continue
+			}
 			at.rec = append(at.rec, it.ID)
 		}
 		at.files = map[string][]int64{}
@@ -331,6 +363,9 @@ func runAsyncCase(c asyncCase, dir string) error {
 	}
 	if d := sameIDs(at.rec, want); d != "" {
 		return fmt.Errorf("when Stop/Destroy returned the recording appender %s", d)
+	}
+	if at.empties != empties {
+		return fmt.Errorf("when Stop/Destroy returned the recording appender had received %d empty raw writes, %d were accepted", at.empties, empties)
 	}
 	for where, got := range at.files {
 		if d := sameIDs(got, want); d != "" {
@@ -420,9 +455,16 @@ func runKindCase(c kindCase, dir string) error {
 	switch c.Kind {
 	case "logger":
 		m["logger.c05h.type"] = "Logger"
-		m["appender.f.type"], m["appender.f.fileDir"], m["appender.f.fileName"] = "File", dir, "plain.log"
-		m["appender.r.type"], m["appender.r.fileDir"], m["appender.r.fileName"], m["appender.r.rotation"], m["appender.r.maxAge"] = "RollingFile", dir, "roll.log", "h", "100"
-		m["logger.c05h.appenderRef[0].ref"], m["logger.c05h.appenderRef[1].ref"] = "f", "r"
+		f, r := "f", "r"
+		switch c.N % 3 { // an appender may be called like the logger that uses it
+		case 1:
+			f = "c05h"
+		case 2:
+			r = "c05h"
+		}
+		m["appender."+f+".type"], m["appender."+f+".fileDir"], m["appender."+f+".fileName"] = "File", dir, "plain.log"
+		m["appender."+r+".type"], m["appender."+r+".fileDir"], m["appender."+r+".fileName"], m["appender."+r+".rotation"], m["appender."+r+".maxAge"] = "RollingFile", dir, "roll.log", "h", "100"
+		m["logger.c05h.appenderRef[0].ref"], m["logger.c05h.appenderRef[1].ref"] = f, r
 	case "file":
 		m["logger.c05h.type"], m["logger.c05h.fileDir"], m["logger.c05h.fileName"] = "File", dir, "plain.log"
 	case "console":
